@@ -205,6 +205,10 @@ def run_case(p, drv):
             model.fit(X0, y0, Xv0, yv0)
             leaf_val_classes.clear()
         model.fit(Xtr, ytr, Xva, yva)
+        if p['dseed'] % 2 == 1:
+            # object history: other public calls on other rows before the judged ones
+            from harness.props import _xcommon as xc_
+            xc_.perturb_history(model, p['dseed'], Xtr.shape[1])
     except Exception as e:
         import traceback
         fit_error = e
